@@ -64,9 +64,10 @@ def step_count_expectation(t0, dt, Tend):
     return 'ambiguous', None, float(r)
 
 
-def tol_time(a, c):
-    # "up to rounding": the controller forms times both as t0 + (dt + ... + dt) and as chained additions
-    return 4 * R.ulp(max(abs(a['time']), abs(c['time']), abs(a['dt'])))
+def tol_time(a, c, scale=0.0):
+    # "up to rounding": the controller forms times both as t0 + (dt + ... + dt) and as chained additions, so the
+    # rounding unit is that of the largest time involved in the run (t0, Tend), not of the (possibly cancelling) result
+    return 4 * R.ulp(max(abs(a['time']), abs(c['time']), abs(a['dt']), scale))
 
 
 def prop(case, r):
@@ -103,7 +104,7 @@ def prop(case, r):
                 r.fail('run-ended-on-restart', f'last block {b} requested a restart but the run ended')
         # times inside a block are contiguous
         for a, c in zip(blk[:-1], blk[1:]):
-            r.check(abs(c['time'] - (a['time'] + a['dt'])) <= tol_time(a, c), 'block-times', f'block {b}: {a["time"]!r}+{a["dt"]!r} vs {c["time"]!r}')
+            r.check(abs(c['time'] - (a['time'] + a['dt'])) <= tol_time(a, c, max(abs(t0), abs(Tend))), 'block-times', f'block {b}: {a["time"]!r}+{a["dt"]!r} vs {c["time"]!r}')
     if not r.check(len(accepted) > 0, 'no-accepted-step', ''):
         return
     nblocks = len(blocks)
@@ -120,7 +121,7 @@ def prop(case, r):
     r.check(first_blk['u0_id'] != id(u0), 'first-value-alias', 'first step uses the caller\'s object, not a copy')
     # chain
     for (ba, a), (bb, c) in zip(accepted[:-1], accepted[1:]):
-        r.check(abs(c['time'] - (a['time'] + a['dt'])) <= tol_time(a, c), 'tiling', f'step at {a["time"]!r} dt {a["dt"]!r} followed by start {c["time"]!r}')
+        r.check(abs(c['time'] - (a['time'] + a['dt'])) <= tol_time(a, c, max(abs(t0), abs(Tend))), 'tiling', f'step at {a["time"]!r} dt {a["dt"]!r} followed by start {c["time"]!r}')
         r.check(c['u0'] == a['uend'], 'chain-value', f'step starting at {c["time"]!r} (block {bb}) does not start from the end value of the step before it')
     for b, s in accepted:
         r.check(s['time'] < Tend, 'start-beyond-Tend', f'accepted step starts at {s["time"]!r} >= Tend={Tend!r}')
